@@ -13,7 +13,7 @@ func init() { register("C02", "exploration", runC02) }
 // C02: what is uploaded is what is served. Differential monitor: generated upload / overwrite / delete programs over
 // a hostile name universe against the reference object model; the whole store is dumped and compared after every step.
 func runC02(run *common.Run) {
-	run.Rule = "case = one generated program (30-80 steps: uploads via media / multipart / resumable with random chunkings, status queries, overlapping re-sends, PUT and POST chunks, gzip request bodies, declared MD5 right/wrong/malformed; overwrites; deletes of live and absent names) over 2 buckets and 6 names + 2 decoys drawn from the hostile name universe, run on one store (memory or file); after every step the whole store is dumped (bucket GET, full listing, metadata GET and media GET of every universe name; all three URL forms for the name just touched, one rotating form for the others) and compared with the reference model. Non-trivial = the program overwrote a live object, deleted a live object, completed a resumable upload that needed >= 2 chunk requests and had an upload rejected for its MD5; distinct by hash of the executed step log x store."
+	run.Rule = "case = one generated program (30-80 steps: uploads via media / multipart / resumable with random chunkings, status queries, overlapping re-sends, PUT and POST chunks, gzip request bodies, declared MD5 right/wrong/malformed; overwrites; deletes of live and absent names; metadata patches that send back a full, possibly stale, resource from an earlier GET and must leave content, size and MD5 as uploaded) over 2 buckets and 6 names + 2 decoys drawn from the hostile name universe, run on one store (memory or file); after every step the whole store is dumped (bucket GET, full listing, metadata GET and media GET of every universe name; all three URL forms for the name just touched, one rotating form for the others) and compared with the reference model. Non-trivial = the program overwrote a live object, deleted a live object, completed a resumable upload that needed >= 2 chunk requests and had an upload rejected for its MD5; distinct by hash of the executed step log x store."
 	run.Assumptions = []string{
 		"reference object model written from the statement and the public JSON API; generations are learned from responses",
 		"resumable chunks are sent to the session URL with PUT; POST only to the Location URL the emulator itself issued (well-formed names)",
@@ -62,7 +62,7 @@ func c02Program(run *common.Run, idx int, store string, universe []string) {
 	pool := append([]string(nil), universe...)
 	common.Shuffle(r, pool)
 	o := &progOpts{Buckets: []string{"vb1", "vb2"}, Names: pool[:6], FileRules: store == "file", MD5Pct: 45, BigPerMille: 12,
-		W: map[string]int{"upload": 40, "overwrite": 22, "delete": 22, "delete_absent": 6, "noop": 4}}
+		W: map[string]int{"upload": 40, "overwrite": 22, "delete": 22, "delete_absent": 6, "patch_full": 5, "noop": 4}}
 	for _, b := range o.Buckets {
 		if msg := e.createBucket(b); msg != "" {
 			fail(msg)
